@@ -969,7 +969,7 @@ fn stub_try_at_pos<'a: 'a, Input: InputIndexer, Dir: Direction>(
     // every attempt starts at instruction 0 with a clean stack and sees the whole haystack
     if ip != 0 || this.bts.len() != 1 {
         unsafe {
-            vo::VERIF_ORACLE_CALLS_OK = false;
+            vo::mark_bad();
         }
     }
     vo::lookup(&inp, pos)
@@ -1010,9 +1010,9 @@ fn any_oracle<const N: usize, const B: usize>(hy: &HayN<N, B>, only_at_zero: boo
         i += 1;
     }
     unsafe {
-        vo::VERIF_ORACLE_HAYLEN = hy.len;
-        vo::VERIF_ORACLE_CALLS_OK = true;
-        vo::VERIF_ORACLE_ACTIVE = true;
+        vo::set_haylen(hy.len);
+        vo::reset_calls();
+        vo::set_active();
     }
 }
 
@@ -1092,7 +1092,7 @@ macro_rules! c09_body {
     }
     assert!(done, "iteration must be exhausted after at most chars+1 matches");
     assert!(count <= hy.n + 1);
-    assert!(unsafe { vo::VERIF_ORACLE_CALLS_OK }, "every attempt sees the whole haystack from instruction 0 with a clean stack");
+    assert!(vo::calls_ok(), "every attempt sees the whole haystack from instruction 0 with a clean stack");
     kani::cover!(anchored || count >= 2, "at least two matches (unanchored)");
     kani::cover!(anchored || (count == hy.n + 1 && hy.n >= 1), "an empty match at every position (unanchored)");
     kani::cover!(!anchored || count == 1, "the anchored match");
